@@ -63,6 +63,7 @@ type xf struct {
 	plain      bool
 	captured   map[*types.Var]bool // locals of the current function that a function literal captures and that are reassigned
 	mutGlobals map[*types.Var]bool // package-level variables that some function assigns to
+	selSeq     int
 }
 
 func main() {
@@ -710,6 +711,76 @@ func vrtCall(name string, args ...ast.Expr) *ast.CallExpr {
 	return &ast.CallExpr{Fun: &ast.SelectorExpr{X: ast.NewIdent("vrt"), Sel: ast.NewIdent(name)}, Args: args}
 }
 
+// blockingSelect rewrites a select without default into
+//
+//	{ _vsc0 := ch0; _vsc1 := ch1; switch vrt.Select(false, vrt.RecvCase(_vsc0), vrt.SendCase(_vsc1)) {
+//	  case 0: v, ok := vrt.Recv2(_vsc0); body0
+//	  case 1: vrt.Send(_vsc1, x); body1 } }
+//
+// so that blocking, the choice among ready alternatives and the communication itself are all the scheduler's.
+func (x *xf) blockingSelect(n *ast.SelectStmt) ast.Stmt {
+	x.selSeq++
+	var pre []ast.Stmt
+	var cases []ast.Expr
+	sw := &ast.SwitchStmt{Body: &ast.BlockStmt{}}
+	recvOf := func(e ast.Expr) ast.Expr {
+		for {
+			if p, ok := e.(*ast.ParenExpr); ok {
+				e = p.X
+				continue
+			}
+			break
+		}
+		if u, ok := e.(*ast.UnaryExpr); ok && u.Op == token.ARROW {
+			return u.X
+		}
+		return nil
+	}
+	for i, cl := range n.Body.List {
+		cc, ok := cl.(*ast.CommClause)
+		if !ok || cc.Comm == nil {
+			return nil
+		}
+		tmp := ast.NewIdent(fmt.Sprintf("_vsc%d_%d", x.selSeq, i))
+		var chExpr ast.Expr
+		var first ast.Stmt
+		switch cm := cc.Comm.(type) {
+		case *ast.SendStmt:
+			chExpr = cm.Chan
+			cases = append(cases, vrtCall("SendCase", tmp))
+			first = &ast.ExprStmt{X: vrtCall("Send", tmp, cm.Value)}
+		case *ast.ExprStmt:
+			chExpr = recvOf(cm.X)
+			if chExpr == nil {
+				return nil
+			}
+			cases = append(cases, vrtCall("RecvCase", tmp))
+			first = &ast.ExprStmt{X: vrtCall("Recv", tmp)}
+		case *ast.AssignStmt:
+			if len(cm.Rhs) != 1 {
+				return nil
+			}
+			chExpr = recvOf(cm.Rhs[0])
+			if chExpr == nil {
+				return nil
+			}
+			cases = append(cases, vrtCall("RecvCase", tmp))
+			fn := "Recv"
+			if len(cm.Lhs) == 2 {
+				fn = "Recv2"
+			}
+			first = &ast.AssignStmt{Lhs: cm.Lhs, Tok: cm.Tok, Rhs: []ast.Expr{vrtCall(fn, tmp)}}
+		default:
+			return nil
+		}
+		pre = append(pre, &ast.AssignStmt{Lhs: []ast.Expr{tmp}, Tok: token.DEFINE, Rhs: []ast.Expr{chExpr}})
+		body := append([]ast.Stmt{first}, cc.Body...)
+		sw.Body.List = append(sw.Body.List, &ast.CaseClause{List: []ast.Expr{&ast.BasicLit{Kind: token.INT, Value: strconv.Itoa(i)}}, Body: body})
+	}
+	sw.Tag = vrtCall("Select", append([]ast.Expr{ast.NewIdent("false")}, cases...)...)
+	return &ast.BlockStmt{List: append(pre, sw)}
+}
+
 func (x *xf) post(c *astutil.Cursor) bool {
 	switch n := c.Node().(type) {
 	case *ast.Ident:
@@ -921,10 +992,16 @@ func (x *xf) post(c *astutil.Cursor) bool {
 				}
 			}
 		}
-		if !hasDefault && inBlock(c) {
-			x.needRT = true
-			c.InsertBefore(&ast.ExprStmt{X: vrtCall("Point", &ast.BasicLit{Kind: token.STRING, Value: `"select"`}, ast.NewIdent("nil"))})
-			x.warn = append(x.warn, fmt.Sprintf("blocking select at %s is not modelled (may end as inconclusive)", x.pkg.Fset.Position(n.Pos())))
+		if !hasDefault {
+			_, labelled := c.Parent().(*ast.LabeledStmt)
+			if repl := x.blockingSelect(n); repl != nil && !labelled {
+				x.needRT = true
+				c.Replace(repl)
+			} else if inBlock(c) {
+				x.needRT = true
+				c.InsertBefore(&ast.ExprStmt{X: vrtCall("Point", &ast.BasicLit{Kind: token.STRING, Value: `"select"`}, ast.NewIdent("nil"))})
+				x.warn = append(x.warn, fmt.Sprintf("blocking select at %s is not modelled (may end as inconclusive)", x.pkg.Fset.Position(n.Pos())))
+			}
 		}
 	case *ast.GoStmt:
 		x.needRT = true
